@@ -77,7 +77,7 @@ func (Forgery) Layouts(tier string) int { return 1 }
 
 // Keep: documents with a genuine root signature are few and carry the signed-Response path; always replayed.
 func (Forgery) Keep(c *orch.Case) bool {
-	return bytes.Contains(c.Input, []byte(`"rsig":"gen"`))
+	return bytes.Contains(c.Input, []byte(`"rsig":"gen"`)) || bytes.Contains(c.Input, []byte(`"rsig":"reloc"`)) || bytes.Contains(c.Input, []byte(`"rsig":"malformed"`))
 }
 
 var ridMap = map[string]string{"r1": "_resp-r1", "rX": "_resp-x9", "a1": "_assert-a1"}
@@ -239,6 +239,27 @@ func BuildForgery(in *fInput, seed int64, claim bool) (doc []byte, lay idp.Layou
 		mustSign(root, o)
 	case "gen":
 		mustSign(root, idp.DefaultSig(w.IdpA.Key, w.IdpA.DER))
+	case "reloc":
+		sig, err := idp.BuildSignature(root, idp.DefaultSig(w.IdpA.Key, w.IdpA.DER))
+		if err != nil {
+			panic(err)
+		}
+		wr := b.Wrapper("Extensions")
+		wr.AddChild(sig)
+		idp.InsertSignature(root, wr, -1)
+	case "malformed":
+		sig, err := idp.Sign(root, idp.DefaultSig(w.IdpA.Key, w.IdpA.DER))
+		if err != nil {
+			panic(err)
+		}
+		switch rng.Intn(3) {
+		case 0:
+			sig.RemoveChild(sig.FindElement("./SignatureValue"))
+		case 1:
+			sig.AddChild(sig.FindElement("./SignedInfo").Copy())
+		default:
+			sig.AddChild(sig.FindElement("./KeyInfo").Copy())
+		}
 	case "lifted":
 		if isGR0 {
 			mustSign(root, idp.DefaultSig(w.IdpA.Key, w.IdpA.DER))
